@@ -406,6 +406,20 @@ func RunDetPure(c *core.Ctx) {
 				}
 				return true
 			})
+			// --- schedule- or address-dependent constructs
+			ast.Inspect(fd.Body, func(x ast.Node) bool {
+				switch t := x.(type) {
+				case *ast.GoStmt:
+					c.Fail("T.pure", fmt.Sprintf("%s.%s go statement", rel, name), "the generator starts a goroutine: output order can depend on the schedule", c.PosStr(p.Fset, t.Pos()), src)
+				case *ast.SelectStmt:
+					c.Fail("T.pure", fmt.Sprintf("%s.%s select statement", rel, name), "select chooses among ready channels nondeterministically", c.PosStr(p.Fset, t.Pos()), src)
+				case *ast.BasicLit:
+					if t.Kind == token.STRING && strings.Contains(t.Value, "%p") {
+						c.Fail("T.pure", fmt.Sprintf("%s.%s %%p verb", rel, name), "a pointer is formatted into text: addresses differ between runs", c.PosStr(p.Fset, t.Pos()), src)
+					}
+				}
+				return true
+			})
 			// --- map ranges
 			ast.Inspect(fd.Body, func(x ast.Node) bool {
 				rs, ok := x.(*ast.RangeStmt)
